@@ -2,7 +2,7 @@
    Theorems only (proofs in Acme.C04.Proofs_Xxx). "No mutating call panics" is what the
    correspondence run exhibits for the Go code (every call runs inside recover()); the model is
    total by construction. *)
-From Acme.C04 Require Import Spec Proofs_Noop Proofs_Pre.
+From Acme.C04 Require Import Spec Proofs_Noop Proofs_Pre Proofs_Refs.
 
 Theorem error_is_noop : forall s o, Inv s -> is_err (snd (step s o)) = true -> fst (step s o) = s.
 Proof. exact Proofs_Noop.error_is_noop. Qed.
@@ -18,3 +18,8 @@ Theorem cause_spec :
   forall s o cs, Inv s -> snd (step s o) = Err cs -> cs <> nil /\ forall cw, In cw cs -> doc_cause s o cw.
 Proof. exact Proofs_Pre.cause_spec_In. Qed.
 Print Assumptions cause_spec.
+
+(* layer 3 (SetType / SetUnit / SetEnum / AssignAttribute / RemoveAttributeAssignment / … / SetCANIDBuilder) *)
+Theorem error_is_noop3 : forall s o, Inv3 s -> is_err (snd (step3 s o)) = true -> fst (step3 s o) = s.
+Proof. exact Proofs_Refs.error_is_noop3. Qed.
+Print Assumptions error_is_noop3.
